@@ -199,11 +199,12 @@ def main(tier):
     t0 = time.time()
     build.ensure_built()
     deadline = t0 + (50 if tier == "quick" else 600)
-    K = 4
+    K = 3 if tier == "quick" else 4
     tasks = []
     for P in ([127, 128], [127, 128, 129], [127, 128, 129, 130]):
         for fmt in FORMATS:
-            tasks.append(("K=%d,P=%d,fmt=%s" % (K, len(P), fmt), K, P, fmt, {}))
+            k = 4 if fmt == "default" else K
+            tasks.append(("K=%d,P=%d,fmt=%s" % (k, len(P), fmt), k, P, fmt, {}))
         tasks.append(("K=%d,P=%d,hyperlinks" % (K, len(P)), K, P, "default", {"hyperlinks": True}))
         tasks.append(("K=%d,P=%d,width=30" % (K, len(P)), K, P, "default", {"width": "30"}))
     res = explore.pmap(run_task, [t + (deadline,) for t in tasks])
